@@ -912,10 +912,13 @@ func (x *Exec) appendOp(fr *Frame, st *State, s, e SliceV, pos token.Pos) Value 
 				q, s.Off, s.Len, q, q, s.Off, newLen, inner, q, olds, q, inner, q))
 		}
 		st.Heap[lf[0]] = x.em.define("H.app", l.ArraySort(), "(store "+cur+" "+rb+" "+inner+")")
+		saved := x.storeNew
+		x.storeNew = s.New
 		x.recordWrite(lf[0], rb, false)
+		x.storeNew = saved
 	}
 	_ = pos
-	return SliceV{Base: rb, Off: s.Off, Len: newLen, Cap: rcap, Elem: s.Elem, Own: nil}
+	return SliceV{Base: rb, Off: s.Off, Len: newLen, Cap: rcap, Elem: s.Elem, Own: nil, New: s.New}
 }
 
 func (x *Exec) copyOp(fr *Frame, st *State, d, s SliceV) Value {
